@@ -159,8 +159,11 @@ def shape_call(ctx, case):
     ref = ref_shape(model, m, par)
     scale = float(np.max(np.abs(ref)))
     ctx.check(np.all(np.isfinite(lib.real)) and np.all(np.isfinite(lib.imag)), "finite", "%s: %s" % (model, lib[:4]))
-    ctx.close(lib.real, ref.real, "formula_real:" + model, rtol=1e-9, atol=1e-11 * scale, what="%s L=%d Re" % (model, par["L"]))
-    ctx.close(lib.imag, ref.imag, "formula_imag:" + model, rtol=1e-9, atol=1e-11 * scale, what="%s L=%d Im" % (model, par["L"]))
+    # per-point tolerance relative to the modulus (at m = m0 the real part is an exact cancellation: its rounding
+    # error is of relative size 1e-16 |R|^2 (m0 Gamma) m0, not relative to Re R = 0)
+    atol = 1e-11 * scale + 1e-9 * np.abs(ref)
+    ctx.close(lib.real, ref.real, "formula_real:" + model, rtol=1e-9, atol=atol, what="%s L=%d Re" % (model, par["L"]))
+    ctx.close(lib.imag, ref.imag, "formula_imag:" + model, rtol=1e-9, atol=atol, what="%s L=%d Im" % (model, par["L"]))
     if model in FAMILY:
         ctx.check(np.all(lib.imag > 0), "family_im_positive:" + model, "Im R <= 0 for Gamma0>0: %s" % lib[:3])
         at0 = lib[-1]
